@@ -376,6 +376,8 @@ fn gen_value(uniq: &mut u64) -> Value {
         1 => json!([*uniq, *uniq + 1000]),
         2 => json!({"a": {"x": *uniq}, "0": *uniq}),
         3 => Value::String(format!("s{uniq}")),
+        // a body that is exactly `null` is a body like any other (a write, a call argument)
+        5 if simkernel::choose(4) == 0 => Value::Null,
         // strings that look like other JSON: a text body must stay a string
         4 if simkernel::choose(2) == 0 => Value::String(match simkernel::choose(5) {
             0 => format!("{uniq}"),
@@ -424,7 +426,31 @@ fn router_ok(op: &Op) -> bool {
     }
 }
 
+/// Whatever spelling of an array index the registry accepts for a write (`1`, `01`, `+1`, ...),
+/// the next read of that very pointer returns what was written. (No model of which spellings
+/// are legal is needed for that.)
+fn c14_index_spellings(case: &Case) {
+    let reg = Registry::new();
+    if reg.register_value("/items", json!([10, 20, 30, [1, 2, 3]])).is_err() {
+        case.harness_error("register_value failed");
+        return;
+    }
+    for (k, tok) in ["1", "01", "+1", "002", "0", "00", "3/01", "03/1"].iter().enumerate() {
+        let ptr = format!("/items/{tok}");
+        let v = json!(7_000 + k);
+        if reg.dispatch(&ptr, Some(v.clone())).is_ok() {
+            simkernel::count("probe.write_through_an_index_spelling_accepted");
+            let back = reg.dispatch(&ptr, None);
+            case.check(matches!(&back, Ok(b) if *b == v), "write-not-read-back", || format!("wrote {v} at {ptr:?} (accepted); the next read of {ptr:?} returned {back:?}"));
+        }
+    }
+    case.nontrivial();
+}
+
 fn c14_seq(case: &Case) {
+    if simkernel::choose(20) == 0 {
+        return c14_index_spellings(case);
+    }
     let real = Real::new();
     let mut model = Model { root: Value::Object(Map::new()), funcs: BTreeSet::new() };
     let small = simkernel::choose(3) == 0;
